@@ -100,7 +100,14 @@ def eval_model(ck, cases, shard=150):
             ok = False
             continue
         kind, chunk = groups[idx]
-        for a, b in re.findall(r"\(\s*(\d+)(?:%nat)?\s*,\s*(\d+)\s*\)", m.group(1)):
+        pairs = re.findall(r"\(\s*(\d+)(?:%\w+)?\s*,\s*(\d+)(?:%\w+)?\s*\)", m.group(1))
+        if len(pairs) != m.group(1).count("("):
+            # fail closed: every printed (index, code) pair must have been read (scope suffixes, negative codes, ...)
+            ck.broken.append("C06 model evaluation: %d of the %d result pairs of shard %d could be read: %s"
+                             % (len(pairs), m.group(1).count("("), idx, m.group(1)[:300]))
+            ok = False
+            continue
+        for a, b in pairs:
             if kind == "s":
                 sbad.append((chunk[int(a)], int(b)))
             else:
